@@ -278,12 +278,10 @@ def run_history(spy, fam, params, history, twin_memo, rtol=1e-9):
         rec.fp_twin = fam.fingerprint(twin)
         steps.append(rec)
         ok, rel, wh = compare(rec.real, rec.twin, rtol)
-        if np.isfinite(rel):
-            worst = max(worst, rel)
-        if not ok:
+        if ok:
+            worst = max(worst, rel)          # running maximum over the comparisons that passed (margin to rtol)
+        else:
             mismatch, where = i, wh
-            if not np.isfinite(rel):
-                worst = max(worst, 0.0)
             break
     fam.dispose(real)
     fam.dispose(twin)
